@@ -211,6 +211,9 @@ func (m *Method) compileOutput() error {
 			m.Response = out
 
 		case KindService:
+			if ref := out.Ref; ref == nil || ref.Service == nil || !ref.Service.Sub {
+				return fmt.Errorf("invalid output, service %q is not a subservice", out.Name)
+			}
 			m.Subservice = out
 
 		default:
